@@ -24,6 +24,9 @@ var rcvNames = []string{"zero-value", "identity", "arbitrary", "prev-result", "a
 
 // C01: scalar multiplication is the exact multiple, receiver-independent.
 func C01(c *Ctx) {
+	if !ShimAvailable {
+		c.Inconclusive("optional in-package shim not available: recodings and table selections are observed only through the public API")
+	}
 	n := c.N(20000, 600000)
 	var prev *edwards25519.Point
 	for i := int64(0); i < n; i++ {
@@ -149,6 +152,13 @@ func C01(c *Ctx) {
 		}
 		if entry == 1 {
 			nontriv = scs[0].K.Sign() != 0
+		}
+		if len(scs) > 0 {
+			var pcp *gen.PC
+			if len(pts) > 0 {
+				pcp = &pts[0]
+			}
+			c.shimChecks(r, i, scs[0].K, libS[0], pcp)
 		}
 		c.Tally("entry:" + entryNames[entry])
 		if entry >= 3 {
